@@ -30,10 +30,10 @@ from pyasn1.codec.native import encoder as nat_enc, decoder as nat_dec
 
 PROPERTY = 'C12'
 LEVEL = 'model_checking'
-RULE = ('A: for each of 14 types (cover set incl. OPTIONAL/DEFAULT, SET, CHOICE, ANY, nested, constraints via WITH '
+RULE = ('A: for each of 19 types (cover set incl. OPTIONAL/DEFAULT, SET, CHOICE, ANY, nested, constraints via WITH '
         'COMPONENTS) EVERY sequence of <= 3 (quick) / 4 (thorough) codec calls over the alphabet {encode BER/BER-indef/'
         'CER/DER/native of a shared value object, decode BER/CER/DER of fixed bytes with the shared schema object, '
-        'native decode, mutate-last-decoded-result, read-only use of the shared value (iterate/print/compare)}: each '
+        'native decode, BER decode of a BER-only form, BER decode with a caller-supplied tagMap, mutate-last-decoded-result, read-only use of the shared value (iterate/print/compare)}: each '
         "call's outcome must equal the same call run alone on fresh objects; a semantic snapshot of the shared value "
         '(abstract content, isValue, == with a fresh equal object) and the raw shape of the shared schema must be '
         'unchanged after every call; results must share no mutable node with the schema or with each other. Run with '
@@ -74,6 +74,9 @@ TYPES = [
      {'h': 1, 'n': {'a': 0}}),
     ('seq-wc-absent', ('CON', ('WC', ('b', 'A')), SC.SEQ_OD), {'a': 1, 'c': False}),
     ('seqof-size', ('CON', ('SZ', 1, 3), ('SEQOF', INT)), [1, 2]),
+    # OPTIONAL containers that are present but empty
+    ('seq-opt-empty', ('SEQ', (('h', INT, 'R', None), ('l', ('SEQOF', INT), 'O', None),
+                               ('s', ('SET', (('x', INT, 'O', None),)), 'O', None))), {'h': 7, 'l': [], 's': {}}),
 ]
 
 ENC = {
@@ -215,8 +218,19 @@ class Scenario(object):
     def __init__(self, name, T, v):
         self.name, self.T, self.v = name, T, v
         self.bytes = {'dec-ber': F.encode('indef', T, v), 'dec-cer': M.cer(T, v), 'dec-der': M.der(T, v)}
+        # a BER-only form of the same value: TRUE sent as 01
+        lax = M.der(T, v).replace(b'\x01\x01\xff', b'\x01\x01\x01')
+        try:
+            if not M.values_equal(T, M.read(T, lax), v):
+                lax = M.der(T, v)
+        except M.ReadError:
+            lax = M.der(T, v)
+        self.bytes['dec-ber-lax'] = lax
         self.calls = list(ENC) + list(DEC) + ['dec-native', 'enc-py-chunk1', 'mutate-last', 'read-iter', 'read-print', 'read-eq',
                                              'read-values']
+        if lax != M.der(T, v):
+            # one call that passes its own codec table (documented override) and one that relies on BER leniency
+            self.calls += ['dec-ber-lax', 'dec-ber-cer-tagmap']
         self._solo = {}
 
     def fresh(self):
@@ -259,6 +273,12 @@ class Scenario(object):
             return outcome(lambda: ENC[call](val)), None
         if call in DEC:
             out = outcome(lambda: DEC[call](self.bytes[call], asn1Spec=spec))
+            return out, (out[1][0] if out[0] == 'ok' else None)
+        if call == 'dec-ber-lax':
+            out = outcome(lambda: ber_dec.decode(self.bytes['dec-ber-lax'], asn1Spec=spec))
+            return out, (out[1][0] if out[0] == 'ok' else None)
+        if call == 'dec-ber-cer-tagmap':
+            out = outcome(lambda: ber_dec.decode(self.bytes['dec-cer'], asn1Spec=spec, tagMap=cer_dec.TAG_MAP))
             return out, (out[1][0] if out[0] == 'ok' else None)
         if call == 'enc-py-chunk1':
             if U.contains(self.T, lambda t: t[0] == 'ANY'):
